@@ -153,7 +153,7 @@ def resolve(reg, ns, ev, args):
     return None
 
 
-def registry_cfg_line(reg):
+def registry_cfg_line(reg, reconnection=False):
     rets = []
     for hh in reg['fns']:
         rets.append([False, C.s2w(hh['ns']), C.s2w(hh['ev']), ret2w(hh['ret'])])
@@ -161,6 +161,7 @@ def registry_cfg_line(reg):
         for m in c['methods']:
             rets.append([True, C.s2w(c['ns']), C.s2w(m['ev']), ret2w(m['ret'])])
     return {'cfg': {
+        'reconnection': bool(reconnection),
         'fns': [[C.s2w(hh['ns']), C.s2w(hh['ev']), bool(hh.get('legacy'))] for hh in reg['fns']],
         'classes': [[C.s2w(c['ns']), [[C.s2w(m['ev']), bool(m.get('legacy'))] for m in c['methods']]]
                     for c in reg['classes']],
@@ -320,6 +321,8 @@ def canon_impl(rec):
             out.append(['cb', t[1], [canon(x) for x in t[2]]])
         elif t[0] == 'contained':
             out.append(['contained'])
+        elif t[0] == 'effort':
+            out.append(['effort'])
         elif t[0] in ('>', '<'):
             pass
         else:
@@ -336,7 +339,8 @@ def canon_impl(rec):
 def canon_snap_impl(s):
     return {'connected': s['connected'],
             'namespaces': sorted([k, canon(v)] for k, v in s['namespaces']),
-            'callbacks': sorted(s['callbacks']), 'binbuf': s['binbuf'], 'sid': s['sid'], 'eio': s['eio']}
+            'callbacks': sorted(s['callbacks']), 'binbuf': s['binbuf'], 'sid': s['sid'], 'eio': s['eio'],
+            'effort': s.get('effort', False)}
 
 
 def canon_model(ans):
@@ -347,7 +351,7 @@ def canon_model(ans):
             out.append(['send', C.w2s(o['text'])])
             for a in o['atts']:
                 out.append(['sendb', a])
-        elif k in ('close', 'auth'):
+        elif k in ('close', 'auth', 'effort'):
             out.append([k])
         elif k == 'trig':
             t = o['tgt']
@@ -373,7 +377,7 @@ def canon_snap_model(q):
     return {'connected': q['connected'],
             'namespaces': sorted([C.w2s(k), json.dumps(v)] for k, v in q['namespaces']),
             'callbacks': sorted([C.w2s(k), i] for k, i in q['callbacks']),
-            'binbuf': q['binbuf'], 'sid': C.ow2s(q['sid']), 'eio': q['eio']}
+            'binbuf': q['binbuf'], 'sid': C.ow2s(q['sid']), 'eio': q['eio'], 'effort': q.get('effort', False)}
 
 
 def model_notes(ans):
@@ -809,8 +813,10 @@ class Oracle:
     view of the connection.  Failures: (clause, text); inside a known-finding region they are
     attributed to the region's signature."""
 
-    def __init__(self, reg, clauses='all'):
+    def __init__(self, reg, clauses='all', reconnection=False):
         self.reg = reg
+        self.reconnection = reconnection
+        self.effort = False         # a reconnection effort has been started (and is held)
         self.v = View()
         self.fail = []              # (clause, text, op index)
         self.known = {}             # signature -> text
@@ -895,6 +901,15 @@ class Oracle:
             ended = self.end_connection()
             if self.strict_before:
                 self.expect_disconnects(block, ended, W.TRANSPORT_ERROR if e[0] == 'lost' else W.SERVER_DISCONNECT)
+            # an accidental loss starts the reconnection effort (once); nothing else does
+            want = self.reconnection and e[0] == 'lost' and not self.effort
+            got = sum(1 for t in block if t[0] == 'effort')
+            if got != (1 if want else 0):
+                self.bad('C08.reset', 'reconnection effort started %d times at %s (reconnection=%r, pending=%r)'
+                         % (got, e[0], self.reconnection, self.effort))
+            if want:
+                self.effort = True
+                self.stat('end.lost.effort_started_and_held')
             return
         f = e[1]
         if v.owed > 0:
@@ -1280,14 +1295,14 @@ REGION_TEXT = {
 
 # ------------------------------------------------------------------ cases
 
-def gen_case(rng, mode, profile, n_ops):
+def gen_case(rng, mode, profile, n_ops, reconnection=False):
     """Generate a history online (driven by the spec-side view) and execute it on the real client.
     -> (case, recs, oracle)"""
     is_async = mode == 'asyncio'
     reg = gen_registry(rng, is_async)
-    orc = Oracle(reg)
+    orc = Oracle(reg, reconnection=reconnection)
     gen = HistoryGen(rng, is_async, profile, reg, orc.v)
-    w = W.ClientWorld(mode, reg)
+    w = W.ClientWorld(mode, reg, reconnection=reconnection)
     ops, recs = [], []
     def sink(op, rec):
         orc.step(op, rec)
@@ -1301,13 +1316,13 @@ def gen_case(rng, mode, profile, n_ops):
             orc.stats['burst.handlers_suspended_while_next_packet_arrived'] = w.n_suspended
     finally:
         w.close()
-    return {'mode': mode, 'registry': reg, 'ops': ops}, recs, orc
+    return {'mode': mode, 'registry': reg, 'ops': ops, 'reconnection': reconnection}, recs, orc
 
 
 def exec_case(case):
     """Re-execute a given history (replay / corpus)."""
-    orc = Oracle(case['registry'])
-    w = W.ClientWorld(case['mode'], case['registry'])
+    orc = Oracle(case['registry'], reconnection=case.get('reconnection', False))
+    w = W.ClientWorld(case['mode'], case['registry'], reconnection=case.get('reconnection', False))
     recs = []
     def sink(op, rec):
         orc.step(op, rec)
@@ -1321,7 +1336,7 @@ def exec_case(case):
 
 
 def model_lines(case):
-    return [registry_cfg_line(case['registry'])] + [op2w(op) for op in case['ops']]
+    return [registry_cfg_line(case['registry'], case.get('reconnection', False))] + [op2w(op) for op in case['ops']]
 
 
 def compare(case, recs, answers, upto=None):
@@ -1339,7 +1354,8 @@ def compare(case, recs, answers, upto=None):
 
 
 def case_json(case):
-    return {'mode': case['mode'], 'registry': enc(case['registry']), 'ops': enc(case['ops'])}
+    return {'mode': case['mode'], 'registry': enc(case['registry']), 'ops': enc(case['ops']),
+            'reconnection': bool(case.get('reconnection', False))}
 
 
 def case_from_json(j):
@@ -1358,7 +1374,7 @@ def case_from_json(j):
             op['reacts'] = [tuple(e) for e in op['reacts']]
         elif op['op'] == 'ev':
             op['e'] = tuple(op['e'])
-    return {'mode': j['mode'], 'registry': reg, 'ops': ops}
+    return {'mode': j['mode'], 'registry': reg, 'ops': ops, 'reconnection': bool(j.get('reconnection', False))}
 
 
 def skeleton(case):
@@ -1397,7 +1413,9 @@ def run_check(ctx, profile, props, nontrivial_rule, is_nontrivial):
     for i in range(n_cases):
         mode = 'threading' if i % 2 == 0 else 'asyncio'
         n_ops = rng.randint(6, 26)
-        case, recs, orc = gen_case(rng, mode, profile, n_ops)
+        recon = rng.random() < (0.35 if profile == 'c08' else 0.15)
+        case, recs, orc = gen_case(rng, mode, profile, n_ops, reconnection=recon)
+        ctx.count('reconnection.' + ('on_effort_held' if recon else 'off'))
         cases.append(case)
         all_recs.append(recs)
         oracles.append(orc)
@@ -1490,7 +1508,8 @@ def run_check(ctx, profile, props, nontrivial_rule, is_nontrivial):
 def shrink(case, clause, budget=60):
     """Delta-debugging on the operation list: smallest history that still fails the same clause."""
     def fails(ops):
-        c2 = {'mode': case['mode'], 'registry': case['registry'], 'ops': ops}
+        c2 = {'mode': case['mode'], 'registry': case['registry'], 'ops': ops,
+              'reconnection': case.get('reconnection', False)}
         try:
             _recs, orc = exec_case(c2)
         except Exception:   # noqa
@@ -1518,7 +1537,8 @@ def shrink(case, clause, budget=60):
             if chunk == 1:
                 break
             n = min(n * 2, len(ops))
-    return {'mode': case['mode'], 'registry': case['registry'], 'ops': ops}
+    return {'mode': case['mode'], 'registry': case['registry'], 'ops': ops,
+            'reconnection': case.get('reconnection', False)}
 
 
 def replay_case(ctx, r):
